@@ -173,6 +173,8 @@ def encode_real(E, R, prefix, plen):
     from props import common as cm
     pre = bytes.fromhex(prefix)
     tail = E.bytes("tail", plen - len(pre), mode="int")
+    if pre[:1] == b"\x00" and len(pre) > 1:
+        E.assume(tail[0] != 0)                  # exactly len(pre) leading zero bytes
     payload = pre + tail
     s = E.run(R.helper.encode_base58_checksum, payload)
     if isinstance(s, Raised):
@@ -180,7 +182,7 @@ def encode_real(E, R, prefix, plen):
         return "raised"
     full = payload + E.H.hash256(payload)[:4]
     value_relation(E, s, full, "real-size encode")
-    chars, m = cm.FIRST_CHAR[(pre, plen)]
+    chars, m = cm.FIRST_CHAR[(pre[:1] if plen != 78 else pre, plen)]
     first = s[0]
     ok = False
     for ch in chars:
@@ -226,6 +228,9 @@ def cases(tier):
             continue          # 78-byte payloads (3 min each) and the leading-zero address prefix: thorough tier
         cs.append(Case("encode_real[%s,%d]" % (pre.hex(), plen), "encode_real", dict(prefix=pre.hex(), plen=plen), weight=plen,
                        need=("real-size encode: positional base-58 value", "first character of the real encoding is the one the summary assumes")))
+    for zeros in (2, 3):
+        cs.append(Case("encode_real[%s,21]" % ("00" * zeros), "encode_real", dict(prefix="00" * zeros, plen=21), weight=30,
+                       need=("real-size encode: leading '1's == leading zero bytes",)))
     for n in range(0, (2 if q else 3) + 1):
         cs.append(Case("checksum_corrupt[%d]" % n, "checksum_corrupt", dict(n=n), weight=2 ** (n + 4),
                        need=("wrong checksum rejected",)))
